@@ -110,6 +110,17 @@ def do_tour(ctx, n, k1, f5, modes):
     ctx.extra.setdefault('design_conformance', []).append(info)
 
 
+def _explore_one(task):
+    name, mode, seed = task
+    prog, rep = CFG[name]
+    res = tour.explore(mode, prog, rep, 1, random.Random(seed), write_yield=(seed % 3 == 0), line_yield=(seed % 4 == 1))
+    tr, info = res[0]
+    info.update(config=name, mode=mode, seed=seed, write_yield=(seed % 3 == 0), line_yield=(seed % 4 == 1 and mode == 'sync'))
+    info['results'] = {t: (r_ if r_ is None or r_[0] == 'ret' else ('exc', repr(r_[1]))) for t, r_ in info.get('results', {}).items()}
+    tr = [{k: v for k, v in e.items() if not k.startswith('_')} for e in tr]
+    return tr, info
+
+
 def do_explore(ctx, rng, n, names, modes):
     runs = []
     for i in range(n):
@@ -124,12 +135,11 @@ def do_explore(ctx, rng, n, names, modes):
     by = {}
     for name, mode, seed in runs:
         by.setdefault((name, mode), []).append(seed)
-    for (name, mode), seeds in by.items():
-        prog, rep = CFG[name]
-        for seed in seeds:
-            res = tour.explore(mode, prog, rep, 1, random.Random(seed), write_yield=(seed % 3 == 0), line_yield=(seed % 4 == 1))
-            tr, info = res[0]
-            info.update(config=name, mode=mode, seed=seed, write_yield=(seed % 3 == 0), line_yield=(seed % 4 == 1 and mode == 'sync'))
+    # the schedules are independent of each other: dealt to forked workers (each explores on its own interpreter state)
+    import multiprocessing as mp
+    tasks = [(name, mode, seed) for (name, mode), seeds in by.items() for seed in seeds]
+    with mp.get_context('fork').Pool(12) as pool:
+        for tr, info in pool.map(_explore_one, tasks, chunksize=8):
             traces.append(tr)
             infos.append(info)
     ver, r = tlc.validate_traces('TraceEnv', traces)
